@@ -388,6 +388,15 @@ def c10(res):
     trace = os.path.join(wd, "trace.ndjson")
     if not run_recorder(res, "c10", [hists, progs, res.tier, trace], wd):
         return res.finish("recorder crashed")
+    # RenderHandle: the cached simplification chain walked by the tile recursion (Handle.tla)
+    res.models.append(model_check("Handle", "Handle_quick.cfg" if q else "Handle_mc.cfg", wd, workers=8, timeout=3000))
+    walks = os.path.join(wd, "walks.out")
+    res.gens.append(generate("Handle", "HandleGen.cfg", wd, walks, workers=4, timeout=3000))
+    tr2 = os.path.join(wd, "trace_handle.ndjson")
+    if not run_recorder(res, "handle", [walks, res.tier, tr2], wd, timeout=3000):
+        return res.finish("recorder crashed")
+    with open(trace, "a") as out:
+        out.write(open(tr2).read())
     n, rej = validate("Trace_C10", trace, wd, timeout=3000)
     res.validated = n - len(rej)
     res.evaluations = n
@@ -396,7 +405,9 @@ def c10(res):
     res.assumptions = ["fresh-object results are the reference (no numeric oracle needed)"]
     return res.finish("every history of the Reuse.tla model up to the bound (exhaustive) plus simulated histories of length 12, each "
                       "replayed on real reused evaluators / storage / workspaces for VM<255>, VM<3> and the JIT over function triples of "
-                      "different shapes; a case = one history", exhaustive=False)
+                      "different shapes; every history of walks of the Handle.tla bound replayed on a real RenderHandle with persistent "
+                      "storage vectors, workspace and evaluators (and on a second handle inheriting the recycled storage), evaluated at "
+                      "points inside the walk's regions against the root shape; a case = one history", exhaustive=False)
 
 
 def c15(res):
